@@ -869,6 +869,56 @@ func sameBlob(a, b trustpolicy.BlobTrustPolicy) bool {
 	return a.Name == b.Name && a.GlobalPolicy == b.GlobalPolicy && sameStrings(a.TrustStores, b.TrustStores) && sameStrings(a.TrustedIdentities, b.TrustedIdentities) && sameSV(a.SignatureVerification, b.SignatureVerification)
 }
 
+// enumAmbiguousBlob: "the single global statement" is only well defined because validation admits at most one.
+// Every document of 2..5 statements in which two or more statements are global - adjacent or separated by plain
+// ones, at every position - and every document with a repeated name must be refused by Validate and by the verifier
+// constructor; an accepted one makes GetGlobalTrustPolicy / selection by name depend on statement order.
+func enumAmbiguousBlob(r *hx.Run) {
+	n := 0
+	names := []string{"a", "b", "c", "d", "e"}
+	for k := 2; k <= 5; k++ {
+		for mask := 0; mask < 1<<k; mask++ {
+			globals := 0
+			for j := 0; j < k; j++ {
+				if mask>>j&1 == 1 {
+					globals++
+				}
+			}
+			for dup := -1; dup < k-1; dup++ { // dup >= 0: the last statement repeats the name of statement dup
+				if globals < 2 && dup < 0 {
+					continue
+				}
+				doc := &trustpolicy.BlobDocument{Version: "1.0"}
+				for j := 0; j < k; j++ {
+					nm := names[j]
+					if dup >= 0 && j == k-1 {
+						nm = names[dup]
+					}
+					doc.TrustPolicies = append(doc.TrustPolicies, bstmt(nm, mask>>j&1 == 1))
+				}
+				n++
+				r.Eval(1)
+				b, _ := json.Marshal(doc)
+				what := "two-or-more-global-statements"
+				if globals < 2 {
+					what = "repeated-statement-name"
+				}
+				if err := doc.Validate(); err == nil {
+					r.Violation("blob-ambiguous/document-accepted:"+what, "Validate accepted a blob document whose global statement / named statement is not unique, selection is then order dependent: "+string(b), histCase{"blob-ambiguous", []string{string(b)}})
+					continue
+				}
+				if _, err := verifier.NewVerifierWithOptions(mocks.NewTrustStore(), verifier.VerifierOptions{BlobTrustPolicy: doc}); err == nil {
+					r.Violation("blob-ambiguous/verifier-constructed-with-ambiguous-document:"+what, string(b), histCase{"blob-ambiguous", []string{string(b)}})
+					continue
+				}
+				r.Outcome("blob-ambiguous:refused")
+				r.Nontrivial("bamb|" + string(b))
+			}
+		}
+	}
+	r.Extra["blob_ambiguous_documents"] = n
+}
+
 func replay(r *hx.Run) {
 	var probe struct {
 		Kind string `json:"kind"`
@@ -904,6 +954,12 @@ func replay(r *hx.Run) {
 	case "oci-e2e", "blob-e2e":
 		fmt.Println("replay: end-to-end cases are re-run by the full end-to-end pass (about a second)")
 		enumE2E(r)
+	case "oci-ambiguous":
+		fmt.Println("replay: ambiguous documents are re-run by the full family (sub-second)")
+		enumAmbiguous(r)
+	case "blob-ambiguous":
+		fmt.Println("replay: ambiguous blob documents are re-run by the full family (sub-second)")
+		enumAmbiguousBlob(r)
 	default:
 		fmt.Println("replay: blob cases are re-run by the full check (sub-second)")
 		enumBlob(r)
@@ -923,6 +979,7 @@ func main() {
 	enumBlob(r)
 	enumE2E(r)
 	enumAmbiguous(r)
+	enumAmbiguousBlob(r)
 	_ = sort.Strings
 	r.Finish()
 }
